@@ -108,10 +108,12 @@ class C01(Check):
               "on the cache, the variables, the data and the time",
         "A4": "table completeness: the stoichiometry tables are filled from every reaction and every surrogate stoichiometry (whole "
               "containers, no filter) keyed variable -> flux",
+        "A6": "name-keyed pairing in the time-course forms: each row handed to _get_args / _get_right_hand_side is keyed by the frame's "
+              "own column labels (row.to_dict() / zip(frame.columns, ..)), never paired positionally with an independently ordered name list",
         "A5": "entry-point agreement: flux queries request exactly reactions + surrogate fluxes; every query entry point reaches _get_args "
               "(or consumes its output); component classes evaluate fn(*(values[a] for a in args)) and store under their own name",
     }
-    floors = {"A1": 4, "A2": 5, "A3": 4, "A4": 2, "A5": 8}
+    floors = {"A1": 4, "A2": 5, "A3": 4, "A4": 2, "A5": 8, "A6": 2}
     decided = [
         "both right-hand-side assemblers compute sum over static and state-dependent coefficients times fluxes, on one consistent value mapping",
         "vector form: declaration order, one entry per variable, 0 for untouched variables; integrator input/output use the same order",
@@ -127,6 +129,7 @@ class C01(Check):
         self.a3(mod)
         self.a4(mod)
         self.a5(mod)
+        self.a6(mod)
 
     # ------------------------------------------------------------------
     def a1(self, mod) -> None:
@@ -362,6 +365,40 @@ class C01(Check):
         else:
             self.violated("A5", SUR, "AbstractSurrogate.calculate_inpl", "component-evaluation", self.prog.module(SUR).cls("AbstractSurrogate"), "surrogate outputs are not merged into the value mapping")
 
+    def a6(self, mod) -> None:
+        for qn, callee, kwname in (("Model._get_args_time_course", "self._get_args", "variables"), ("Model.get_right_hand_side_time_course", "self._get_right_hand_side", "args")):
+            fn = mod.func(qn)
+            frame = [a.arg for a in fn.args.args + fn.args.kwonlyargs if a.arg != "self"][0]
+            calls = [c for c in walk_no_nested(fn) if isinstance(c, ast.Call) and norm(c.func) == callee]
+            if not calls:
+                raise AnalysisError(f"{qn}: call of {callee} not found")
+            arg = {k.arg: k.value for k in calls[0].keywords}.get(kwname)
+            sc = Scope(fn)
+            loops = sc.enclosing(calls[0], ast.For)
+            ok = False
+            why = f"`{kwname}={norm(arg)}`"
+            if isinstance(arg, ast.Call) and isinstance(arg.func, ast.Attribute) and arg.func.attr == "to_dict" and isinstance(arg.func.value, ast.Name) and loops:
+                row = arg.func.value.id
+                lp = loops[0]
+                if norm(lp.iter) == f"{frame}.iterrows()" and isinstance(lp.target, ast.Tuple) and norm(lp.target.elts[1]) == row:
+                    ok = True
+                    why = f"row Series of {frame}.iterrows() converted with to_dict(): keyed by the frame's column labels"
+            elif isinstance(arg, ast.Call) and norm(arg.func) == "dict" and arg.args and isinstance(arg.args[0], ast.Call) and norm(arg.args[0].func) == "zip":
+                keys = norm(arg.args[0].args[0])
+                if keys in (f"{frame}.columns", f"list({frame}.columns)"):
+                    ok = True
+                    why = f"zip({keys}, row): keyed by the frame's column labels"
+                else:
+                    why = f"rows are paired positionally with `{keys}`, a name list that is ordered independently of the frame's columns"
+            else:
+                self.undecided_ob("A6", MOD, qn, "row-keys", calls[0], f"row mapping {why} not recognised")
+                continue
+            if ok:
+                self.holds("A6", MOD, qn, "row-keys", calls[0], why)
+            else:
+                self.violated("A6", MOD, qn, "row-keys", calls[0], why + ": a correctly labelled frame whose columns are in another order is evaluated at the wrong state",
+                              witness="get_args_time_course(frame[['y', 'x']]) for a model declaring x then y returns the values for x and y swapped")
+
     def must_fire(self):
         C = "Model.__call__"
         R = "Model._get_right_hand_side"
@@ -384,6 +421,10 @@ class C01(Check):
             Variant("y0-sorted", SIM, "Simulator._initialise_integrator", "for k in self.model.get_variable_names()", "for k in sorted(self.model.get_variable_names())", expect="A2|"),
             Variant("columns-from-y0", SIM, "Simulator._handle_simulation_results", "columns=self.model.get_variable_names()", "columns=list(self.y0)", expect="A2|"),
             Variant("derived-args-reversed", TYPES, "Derived.calculate_inpl", "(args[arg] for arg in self.args)", "(args[arg] for arg in reversed(self.args))", expect="A5|"),
+            Variant("time-course-rows-by-position", MOD, "Model._get_args_time_course",
+                    "    for time, values in variables.iterrows():\n        args = self._get_args(variables=values.to_dict(), time=cast(float, time), cache=cache)",
+                    "    for time, values in zip(variables.index, variables.to_numpy(), strict=True):\n        args = self._get_args(variables=dict(zip(cache.var_names, values, strict=False)), time=cast(float, time), cache=cache)",
+                    expect="A6|", quick=True),
             Variant("variable-names-sorted", MOD, "Model.get_variable_names", "return list(self._variables)", "return sorted(self._variables)", expect="A2|"),
         ]
 
